@@ -1,5 +1,5 @@
 """Per-property plans: which specification configs are explored and how the real code is bound to them."""
-import json, os, re, subprocess, time
+import json, os, re, shutil, subprocess, time
 from common import Broken
 
 VERIF = os.path.dirname(os.path.dirname(os.path.abspath(__file__)))
@@ -293,7 +293,8 @@ PLANS = {
          AP('d2b', [10], [1], [1, 9], [1], 2)],
         [AP('d1', S_ALL, [1, 2], V_ALL, [1, 2, 9], 1, respell=True),
          AP('d2', [1, 2, 3, 4, 5, 6, 10, 11], [1, 2], V_ALL, [1, 2, 6, 8, 9], 2, timeout=9000),
-         AP('d3', [8, 9], [1, 2], [1, 2, 6, 7, 9], [1, 6, 9], 3, timeout=9000)],
+         AP('d3', [8, 9], [1, 2], [1, 2, 6, 7, 9], [1, 6, 9], 3, timeout=9000),
+         P_apalache('index', 'IndexLemmas', 'All')],
         'the structural (member-order-insensitive, literal-exact) form of the output is compared with the specification state '
         '(canonical and re-spelled texts)',
         CORE_LABELS + ['AddRoot', 'ReplaceRoot', 'TestPassAbsent', 'TestFailAbsent', 'AddBadIndex', 'AddNoParent',
@@ -471,6 +472,25 @@ def T_only(module, name, consts, invariants=(), properties=(), spec='MCSpec', ti
 def T_depth(name, maxlen, sigma='tiny'):
     return T_only('MCScanner', name, {'MaxLen': maxlen, 'SigmaId': '"%s"' % sigma, 'EmitOn': 'FALSE', 'MaxDepth': 3, 'MaxNest': 3},
                   invariants=('ScanOK', 'LanguageEq', 'ErrorAbsorbs', 'TransducersOK'), spec='SSpec')
+
+
+def P_apalache(name, module, inv, timeout=600):
+    """An unbounded lemma discharged by Apalache (symbolic, all integers): design level, nothing is executed on the code."""
+    def run(ctx):
+        t0 = time.time()
+        d = os.path.join(ctx.scratch, 'apalache_' + name)
+        os.makedirs(d, exist_ok=True)
+        for f in os.listdir(ctx.specdir()):
+            if f.endswith('.tla'):
+                shutil.copy(os.path.join(ctx.specdir(), f), d)
+        p = subprocess.run(['timeout', str(timeout), 'apalache-mc', 'check', '--length=0', '--inv=' + inv, module + '.tla'],
+                           cwd=d, env=ctx.env, capture_output=True, text=True)
+        out = p.stdout + p.stderr
+        if 'EXITCODE: OK' not in out or 'The outcome is: NoError' not in out:
+            raise Broken('stage %s: Apalache did not discharge %s!%s:\n%s' % (name, module, inv, out[-1500:]))
+        ctx.cov['stages'].append({'stage': name, 'module': module, 'direction': 'Apalache, unbounded integers', 'invariant': inv,
+                                  'outcome': 'NoError', 'wall_s': round(time.time() - t0, 1)})
+    return run
 
 
 def A_words(name, maxlen, sigma, depth=10000, **kw):
